@@ -12,13 +12,20 @@ def gen_values(rng, n, style=None):
     """n sample values; style: lattice (default), ints, floats"""
     if style is None:
         r = rng.random()
-        style = 'lattice' if r < 0.8 else ('ints' if r < 0.9 else 'floats')
+        style = 'lattice' if r < 0.72 else ('ints' if r < 0.82 else ('plateau' if r < 0.9 else 'floats'))
     if style == 'bigint':
         # integer samples above 2**53 (epoch nanoseconds, 64-bit counters): exact as Python ints, lossy as floats
         return [1700000000000000000 + rng.randint(-400, 400) for _ in range(n)]
     if style == 'nano':
         # nano-scale physical quantities: consecutive values differ by 1e-10 or less (but exactly representable decisions)
         return [rng.randint(-8, 8) * 1e-10 for _ in range(n)]
+    if style == 'plateau':
+        # a quantised, slowly changing quantity: two or three levels, held for several samples (equal maxima inside one window)
+        levels = [LATTICE[rng.randrange(len(LATTICE))] for _ in range(rng.randint(2, 3))]
+        out = [levels[rng.randrange(len(levels))]]
+        for _ in range(n - 1):
+            out.append(out[-1] if rng.random() < 0.6 else levels[rng.randrange(len(levels))])
+        return out
     if style == 'lattice':
         return [LATTICE[rng.randrange(len(LATTICE))] for _ in range(n)]
     if style == 'ints':
@@ -26,9 +33,11 @@ def gen_values(rng, n, style=None):
     return [round(rng.uniform(-5, 5), 3) for _ in range(n)]
 
 
-def gen_trace(rng, vars_, n, p_bigint=0.0):
+def gen_trace(rng, vars_, n, p_bigint=0.0, style=None):
     if p_bigint and rng.random() < p_bigint:
         return dict((v, gen_values(rng, n, 'bigint')) for v in vars_)     # all sensors count in the same huge unit
+    if style:
+        return dict((v, gen_values(rng, n, style)) for v in vars_)
     return dict((v, gen_values(rng, n)) for v in vars_)
 
 
